@@ -25,6 +25,11 @@ const (
 	KillAny       = 16 // anything else
 	KillNNPrimary = 32 // the primary's slot set to a non-nil value
 	KillStable    = 64 // write of a per-height stable location (MyIndex/Priv/Pub): a kill only if the validator list changed
+	// KillNilResp: an entry of the preparation table known to be a PrepareResponse was set to nil. The proposal slot
+	// holds the request or nothing (responses from the primary are refused, G-ADMIT-PREP; L4), so "proposal recorded"
+	// survives it; otherwise it is a nil-store
+	KillNilResp = 128
+	KillNilAny  = KillNil | KillNilResp
 )
 
 type State struct {
@@ -921,6 +926,9 @@ func (w *Walker) store(lh ast.Expr, val *Term, st *State, at ast.Node) {
 		}
 		if base.K == KField && base.Name == locOf(base.Name) {
 			kind := w.storeKind(base, idx, val, st)
+			if kind == KillNil && base.Name == "ctx.PreparationPayloads" && idx != nil && w.knownResponse(base, idx, st) {
+				kind = KillNilResp
+			}
 			w.indexSite(x, base, idx, st)
 			w.write(base.Name, kind, idx, val, st, at)
 			return
@@ -1044,7 +1052,11 @@ func (w *Walker) write(loc string, kind int, idx, val *Term, st *State, at ast.N
 	}
 	if w.record {
 		site := w.recA().siteFor(w.sfn(), at, "write", "", loc)
-		site.Store |= kind
+		if kind == KillNilResp {
+			site.Store |= KillNil
+		} else {
+			site.Store |= kind
+		}
 		w.A.snap(site, st, nil, nil, val, idx)
 	}
 	st.logEv("write:" + loc)
@@ -1067,7 +1079,7 @@ func (w *Walker) write(loc string, kind int, idx, val *Term, st *State, at ast.N
 	if idx != nil && kind&(KillNNOwn|KillNNSender|KillNNOther|KillNNPrimary) != 0 && kind&KillAny == 0 {
 		st.F.add(Lit{mkAtom("nn", mkTerm(KIndex, "", mkTerm(KField, loc), idx), nil), true})
 	}
-	if idx != nil && kind == KillNil {
+	if idx != nil && (kind == KillNil || kind == KillNilResp) {
 		st.F.add(Lit{mkAtom("nn", mkTerm(KIndex, "", mkTerm(KField, loc), idx), nil), false})
 	}
 }
@@ -1131,7 +1143,7 @@ func applyKill(st *State, loc string, kind int, idx *Term) {
 	}
 	// quorum lower bounds !(count{T|phi} < K) survive a non-nil store at idx when the replaced entry did not satisfy phi
 	keepCount := map[string]bool{}
-	if kind&(KillAny|KillNil) == 0 && idx != nil {
+	if kind&(KillAny|KillNilAny) == 0 && idx != nil {
 		for k, v := range st.F.m {
 			at := st.F.atoms[k]
 			if v || at.Op != "lt" || at.A.K != KCount || at.A.Table != loc || len(at.A.Phi) == 0 {
@@ -1170,7 +1182,7 @@ func applyKill(st *State, loc string, kind int, idx *Term) {
 			return false
 		}
 		// upper bounds (count < K) survive nil-stores
-		if kind == KillNil && val && a.Op == "lt" && a.A.K == KCount && a.A.Table == loc {
+		if (kind == KillNil || kind == KillNilResp) && val && a.Op == "lt" && a.A.K == KCount && a.A.Table == loc {
 			return false
 		}
 		if kind&KillAny != 0 || !isSlot(a) {
@@ -1178,6 +1190,12 @@ func applyKill(st *State, loc string, kind int, idx *Term) {
 		}
 		if kind == KillNil {
 			return val // keep "== nil" facts
+		}
+		if kind == KillNilResp {
+			if val && idxClass(a.A.Args[1], st) == "primary" {
+				return false // the proposal slot does not hold a response
+			}
+			return val
 		}
 		// non-nil stores only
 		if val {
@@ -2161,4 +2179,28 @@ func (w *Walker) recA() *Analysis {
 		return w.rec
 	}
 	return w.A
+}
+
+
+// knownResponse: on this path the entry base[idx] is known to be a PrepareResponse (the test `Type() == PrepareResponseType`
+// was taken for the element the index denotes).
+func (w *Walker) knownResponse(base, idx *Term, st *State) bool {
+	cands := []string{mkTerm(KIndex, "", base, idx).S}
+	if idx.K == KLocal && strings.HasPrefix(idx.Name, "rangekey:") {
+		parts := strings.SplitN(idx.Name, ":", 3)
+		if len(parts) == 3 && parts[2] == base.S {
+			cands = append(cands, "elem("+base.S+")#"+parts[1])
+		}
+	}
+	for k, v := range st.F.m {
+		if !v {
+			continue
+		}
+		for _, c := range cands {
+			if k == "ConsensusMessage.Type("+c+")==PrepareResponseType" {
+				return true
+			}
+		}
+	}
+	return false
 }
